@@ -40,8 +40,15 @@ Terms: TypeAlias = (
 )
 
 
+# Protobuf parsers refuse messages nested deeper than 100 levels. A frame holds a row,
+# the row a statement, so the statement can hold 97 levels of quoted triples.
+MAX_QUOTED_TRIPLE_DEPTH = 97
+
+
 @mypyc_attr(allow_interpreted_subclasses=True)
 class TermEncoder:
+    quoted_triple_depth: int = 0
+
     def __init__(
         self,
         lookup_preset: options.LookupPreset | None = None,
@@ -192,14 +199,26 @@ class TermEncoder:
                 information (prefixes, names, datatypes rows, if any).
 
         """
+        if self.quoted_triple_depth >= MAX_QUOTED_TRIPLE_DEPTH:
+            msg = (
+                f"quoted triples nested deeper than {MAX_QUOTED_TRIPLE_DEPTH} levels "
+                "cannot be read back: protobuf limits message nesting to 100 levels"
+            )
+            raise JellyConformanceError(msg)
         rows: list[jelly.RdfStreamRow] = []
         terms = iter(terms)
-        extra_rows = self.encode_spo(next(terms), Slot.subject, quoted_statement)
-        rows.extend(extra_rows)
-        extra_rows = self.encode_spo(next(terms), Slot.predicate, quoted_statement)
-        rows.extend(extra_rows)
-        extra_rows = self.encode_spo(next(terms), Slot.object, quoted_statement)
-        rows.extend(extra_rows)
+        self.quoted_triple_depth += 1
+        try:
+            extra_rows = self.encode_spo(next(terms), Slot.subject, quoted_statement)
+            rows.extend(extra_rows)
+            extra_rows = self.encode_spo(
+                next(terms), Slot.predicate, quoted_statement
+            )
+            rows.extend(extra_rows)
+            extra_rows = self.encode_spo(next(terms), Slot.object, quoted_statement)
+            rows.extend(extra_rows)
+        finally:
+            self.quoted_triple_depth -= 1
         return rows
 
     def encode_spo(self, term: object, slot: Slot, statement: Statement) -> Rows:
